@@ -137,6 +137,7 @@ type Enc struct {
 	intValued    map[string]bool
 	shadow       map[string][2]string
 	ghostModel   [][2]string
+	skippedImplicit int
 	curTag       int
 	ntag         int
 	curAllowed   map[int]bool
